@@ -413,7 +413,8 @@ func TestC06RaceShort(t *testing.T) {
 		return m.Seen("trimming-goroutines-with-deletions:2") + m.Seen("trimming-goroutines-with-deletions:3+")
 	}
 	r := m.Rand("race-history")
-	for h := 0; h < 4 && (h == 0 || concurrent() < 3) && m.Violations() == 0; h++ {
+	// (not conditioned on m.Violations(): listed findings are recorded as violations too and must not stop the exploration)
+	for h := 0; h < 6 && (h == 0 || concurrent() < 3); h++ {
 		history(m, r, h, m.N(36, 36), 6, nil)
 		m.AddExtra("race_histories_run", 1)
 	}
